@@ -406,6 +406,25 @@ func checkWinnerTable(c *Ctx, sp interface{}, fd *ast.FuncDecl) {
 	}
 	sort.Strings(rows)
 	c.Sample("winner table: %s", strings.Join(rows, "; "))
+	// the path walk decides the same table whichever way the conditions are written (`!=`, inverted branches, early continue):
+	// where it finds one outcome per (candidates, literals) combination, that outcome is the table
+	uniq := checkWinnerPaths(c, info, loop, candExpr, strVar)
+	if uniq != nil {
+		same := func(ks ...[2]int64) string {
+			v := uniq[ks[0]]
+			for _, k := range ks[1:] {
+				if uniq[k] != v {
+					return "differs between " + fmt.Sprint(ks[0]) + " (" + v + ") and " + fmt.Sprint(k) + " (" + uniq[k] + ")"
+				}
+			}
+			return v
+		}
+		table["0"] = same([2]int64{0, 0})
+		table["1"] = same([2]int64{1, 0}, [2]int64{1, 1})
+		table["many/1 literal"] = same([2]int64{2, 1}, [2]int64{3, 1})
+		table["many/else"] = same([2]int64{2, 0}, [2]int64{2, 2}, [2]int64{3, 0}, [2]int64{3, 2}, [2]int64{3, 3})
+		c.Sample("winner table by paths: 0: %s; 1: %s; many/1 literal: %s; many/else: %s", table["0"], table["1"], table["many/1 literal"], table["many/else"])
+	}
 	c.Check("R3.2", "one candidate: the state belongs to that definition's terminal", sw.Pos(), table["1"] == "-> "+candExpr+"[0]", "decision for a single candidate is "+table["1"])
 	c.Check("R3.2", "string-literal candidates are selected by `!IsRegex` over all candidates", sw.Pos(), predOK && strVar != "", "the literal candidates are not SelectMatch(candidates, !IsRegex)")
 	c.Check("R3.2", "several candidates, exactly one literal: the literal wins", sw.Pos(), table["many/1 literal"] == "-> "+strVar+"[0]", "decision is "+table["many/1 literal"], "IF = \"if\"  ID = /[a-z]+/")
@@ -413,7 +432,6 @@ func checkWinnerTable(c *Ctx, sp interface{}, fd *ast.FuncDecl) {
 	if t0, ok := table["0"]; ok {
 		c.Check("R3.2", "no candidate: the state is attributed to nothing", sw.Pos(), t0 == "nothing", "decision is "+t0)
 	}
-	checkWinnerPaths(c, info, loop, candExpr, strVar)
 	// conflicts make the whole construction fail: after the loop, ErrorOrNil is tested and returned
 	failOK := false
 	for _, st := range fd.Body.List {
@@ -657,7 +675,7 @@ func handlesBackslash(c *Ctx, fo *types.Func) bool {
 // (number of candidates, number of literal candidates), whether all paths possible under it decide alike. A path condition
 // that is not about those two numbers and separates different decisions means that the winner depends on something else
 // (the state's number, its position, a flag): the documented rule knows the candidates only.
-func checkWinnerPaths(c *Ctx, info *types.Info, loop *ast.RangeStmt, candExpr, strVar string) {
+func checkWinnerPaths(c *Ctx, info *types.Info, loop *ast.RangeStmt, candExpr, strVar string) map[[2]int64]string {
 	type lit struct {
 		e   ast.Expr
 		pol bool
@@ -834,7 +852,7 @@ func checkWinnerPaths(c *Ctx, info *types.Info, loop *ast.RangeStmt, candExpr, s
 	paths := walk(loop.Body.List, []*path{{alias: map[string]string{}}})
 	if len(paths) == 0 || len(paths) > 512 {
 		c.Undecided("R3.2", "the winner depends on the candidates only", loop.Pos(), fmt.Sprintf("%d paths through one iteration", len(paths)))
-		return
+		return nil
 	}
 	// three-valued evaluation of a condition under (nCand, nStr)
 	var eval func(e ast.Expr, nc, ns int64) int // 1 true, 0 false, -1 unknown
@@ -933,6 +951,7 @@ func checkWinnerPaths(c *Ctx, info *types.Info, loop *ast.RangeStmt, candExpr, s
 	}
 	bad, unclear := "", ""
 	scen := 0
+	uniq := map[[2]int64]string{}
 	for nc := int64(0); nc <= 3; nc++ {
 		for ns := int64(0); ns <= nc; ns++ {
 			scen++
@@ -950,6 +969,9 @@ func checkWinnerPaths(c *Ctx, info *types.Info, loop *ast.RangeStmt, candExpr, s
 				}
 			}
 			if len(outs) <= 1 {
+				for o := range outs {
+					uniq[[2]int64{nc, ns}] = o
+				}
 				continue
 			}
 			// which unknown condition separates them
@@ -991,7 +1013,11 @@ func checkWinnerPaths(c *Ctx, info *types.Info, loop *ast.RangeStmt, candExpr, s
 		c.Undecided("R3.2", key, loop.Pos(), unclear)
 	default:
 		c.Pass("R3.2", key, loop.Pos(), fmt.Sprintf("%d paths through one iteration, %d (candidates, literals) combinations, each decided alike on every possible path", len(paths), scen))
+		if len(uniq) == scen {
+			return uniq
+		}
 	}
+	return nil
 }
 
 // checkAppendedAutomata: the automata are collected with append in the loop over the definitions. The final-state lists that
